@@ -1085,6 +1085,8 @@ def _describe_place(prog, body, pl, depth, seen):
                 base = base[3][idx]
             elif base[0] in ("tuple", "array") and idx < len(base[1]):
                 base = base[1][idx]
+            elif base[0] == "closure" and len(base) > 2 and idx < len(base[2]):
+                base = base[2][idx]       # captured value of a closure whose body was inlined (hv/inline.py)
             else:
                 base = ("field", base, idx)
         elif f[0] == "i":
